@@ -1,7 +1,7 @@
 // Package endpoint implements the HAP endpoints.
 package endpoint
 
-// maxRequestBodySize limits the body of a pairing request. The messages of the pairing
-// protocols are smaller than 1 KiB, and a TLV8 item takes a multiple of its size in memory:
+// maxRequestBodySize limits the body of a pairing request and of a resource request. The messages
+// of the pairing protocols are smaller than 1 KiB, and a TLV8 item takes a multiple of its size in memory:
 // without a limit a request of some megabytes of empty items exhausts the memory of a small device.
 const maxRequestBodySize = 1 << 16
